@@ -16,7 +16,7 @@ RULE = ("pmf kernel: every (N,K,n,k) with N <= bound (quick 22, thorough 48) exh
         "admissible target plus inadmissible ones (larger, zero, other dimensionality), random integer data, tolerance "
         "1e-9 * sum|x|; one-axis sizes up to 4001 with finite output required; laws on the implementation: two-step = "
         "direct, same shape = identity, mass, commute with marginalization; CLI --project-shape and -p. non-trivial = "
-        "a successful projection to a strictly smaller shape / a pmf value strictly between 0 and 1")
+        "a successful projection to a strictly smaller shape / a pmf value strictly between 0 and 1; inadmissible targets too large to allocate (2^64-1, 2^62, 1e13 per axis) through the binary")
 
 
 def fmt(l):
@@ -250,6 +250,8 @@ def check(rep, tier, seed):
             sh[0] += 1
         vals = [str(rng.randrange(0, 30)) for _ in range(elements(sh))]
         tgts = [sh[::-1], sorted(sh), sorted(sh, reverse=True), [elements(sh)], sh + [1], [1] + sh, [0] * d, [n + 1 for n in sh], [sh[0] + 1] + sh[1:], sh[:-1] + [0]]
+        # ... and targets so large that a spectrum of that shape could not even be allocated (the check comes first)
+        tgts += [[2**64 - 1] + sh[1:], sh[:-1] + [2**62], [3 * 10**9] * 3, [2**63] * d, sh[:-1] + [3 * 10**18], [3 * 10**18] + [0] * (d - 1), [10**13] * d]
         if d >= 2:
             tgts.append(sh[:-2] + [sh[-2] * sh[-1]])
         for to in tgts:
@@ -261,7 +263,7 @@ def check(rep, tier, seed):
     for job, (rc, so, se), m, c in zip(jobs, res, mo2, exp):
         if not m.startswith("OK"):
             rep.count("project-cli-rejects", " ".join(job[0]) + " on " + c.split()[1], True)
-            if rc == 0 or so != b"" or rc == 101:
+            if rc == 0 or so != b"" or rc == 101 or rc < 0 or rc >= 128:
                 rep.fail(kind="cli-vs-model", cls="project:cli-error-expected", case=c, argv=["sfs"] + job[0], stdin=job[1].decode(),
                          observed={"rc": rc, "stdout": so.decode(errors="replace")[:300]}, expected=m[:200],
                          detail="an inadmissible projection target (the model gives %s) must be rejected with an error and no output" % m[:60])
